@@ -3,6 +3,8 @@ package main
 import (
 	"go/types"
 	"sort"
+
+	"golang.org/x/tools/go/ssa"
 )
 
 // ---------- goroutines ----------
@@ -449,4 +451,80 @@ func (x *Exec) chanClose(c *ChanV, site string) {
 	c.closed = true
 	c.cvc.join(x.cur.vc)
 	x.cur.vc[x.cur.id]++
+}
+
+// selectStmt: a select over channel operations.  Among the ready cases the choice is a fork
+// (Go chooses pseudo-randomly); a blocking select parks until some case is ready.
+func (x *Exec) selectStmt(f *frame, in *ssa.Select) Val {
+	x.mainGor()
+	x.yield()
+	type st struct {
+		ch   *ChanV
+		send bool
+		val  Val
+	}
+	states := make([]st, len(in.States))
+	for i, s := range in.States {
+		c, _ := x.get(f, s.Chan).(*ChanV)
+		states[i] = st{ch: c, send: s.Dir == types.SendOnly}
+		if states[i].send {
+			states[i].val = x.get(f, s.Send)
+		}
+	}
+	ready := func() []int {
+		var r []int
+		for i, s := range states {
+			if s.ch == nil {
+				continue
+			}
+			if s.send {
+				if s.ch.closed || (s.ch.cap > 0 && len(s.ch.buf) < s.ch.cap) {
+					r = append(r, i)
+				}
+			} else if len(s.ch.buf) > 0 || s.ch.closed {
+				r = append(r, i)
+			}
+		}
+		return r
+	}
+	if in.Blocking {
+		x.block(func() bool { return len(ready()) == 0 }, "select")
+	}
+	r := ready()
+	tt := in.Type().(*types.Tuple)
+	res := make(TupleV, tt.Len())
+	for i := 2; i < tt.Len(); i++ {
+		res[i] = x.zero(tt.At(i).Type())
+	}
+	if len(r) == 0 {
+		res[0], res[1] = cbv(64, ^uint64(0)), cbool(false) // default case: index -1
+		return res
+	}
+	k := r[0]
+	if len(r) > 1 {
+		alts := make([]string, len(r))
+		for i := range alts {
+			alts[i] = "true"
+		}
+		k = r[x.choose(alts, "sched")]
+	}
+	res[0] = cbv(64, uint64(k))
+	s := states[k]
+	if s.send {
+		x.chanSend(s.ch, s.val, x.pos(in))
+		res[1] = cbool(false)
+		return res
+	}
+	// receive: the value goes to the result slot of the k-th receive state
+	slot := 2
+	for i := 0; i < k; i++ {
+		if !states[i].send {
+			slot++
+		}
+	}
+	et := tt.At(slot).Type()
+	v := x.chanRecv(s.ch, true, types.NewTuple(types.NewVar(0, nil, "", et), types.NewVar(0, nil, "", types.Typ[types.Bool])), x.pos(in)).(TupleV)
+	res[slot] = v[0]
+	res[1] = v[1]
+	return res
 }
